@@ -129,6 +129,30 @@ def step (cfg : Cfg) (codec : Codec) (crc : Checksum) (bs : Nat) (st : St) (op :
 def runOps (cfg : Cfg) (codec : Codec) (crc : Checksum) (bs : Nat) (st : St) (ops : List Op) : St :=
   ops.foldl (fun s o => (step cfg codec crc bs s o).1) st
 
+/-- The crash window of `flushLocked` made permanent: a block was appended but the in-place header
+    rewrite never happened (here in its extreme form: the counters still say 0/0).  Only the 16
+    counter bytes of the header change.  Meaningful while no writer is open. -/
+def zeroCounts (st : St) : St :=
+  match st.sess, decodeFileHeader (st.file.take 64) with
+  | none, .ok h => { st with file := rewriteHeader st.file { h with blockCount := 0, entryCount := 0 } }
+  | _, _ => st
+
+/-- `Compactor.Compact` (forced): load the live index and the name, write a fresh V3 file under
+    that name with one INSERT per live key (through `WriteEntry`, so the buffer's flush rules
+    apply), close it, and put it in place of the old file.  On a load error, or when the writer
+    constructor refuses the name, the old file is left as it is. -/
+def compactSt (cfg : Cfg) (codec : Codec) (crc : Checksum) (bs : Nat) (now : Nat) (st : St) : St × Reply :=
+  match st.sess with
+  | some _ => (st, .rejOpen)
+  | none =>
+    match loadIndex cfg codec.toDecoder crc st.file with
+    | .error _ => (st, .rejHeader)
+    | .ok (idx, nm) =>
+      match createFileCfg cfg nm now with
+      | none => (st, .rejHeader)
+      | some st0 =>
+        (runOps cfg codec crc bs st0 (idx.map (fun p => Op.write ⟨opInsert, p.1, p.2⟩) ++ [.close]), .ok)
+
 /-- entries still waiting in the write buffer -/
 def St.pending (st : St) : List Entry :=
   match st.sess with
